@@ -1,6 +1,6 @@
 (* L2Check.v -- the end-to-end correspondence: the model (Gen + TmplExec on the
    regenerated template) against what the real moq produced on the same input. *)
-From Moq Require Import Strs GoTypes Registry Scope Gen TmplAst TmplExec.
+From Moq Require Import Strs GoTypes Registry Scope Gen TmplAst TmplExec WellScoped.
 From Moq.gen Require Import TemplateSrc.
 
 Inductive observed :=
@@ -39,5 +39,13 @@ Definition verdict (c : l2case) : string :=
   | OrderDependent _, _ => "DIFF-model-order"
   end.
 
+(* the defect families the model computes for this case (WellScoped.v) *)
+Definition families (c : l2case) : list string :=
+  (input_failing (lc_input c) (lc_cfg c) (lc_args c) ++
+   match mock_run (lc_input c) (lc_cfg c) (lc_args c) with
+   | Ok d => (failing d ++ self_import (lc_input c) d)%list
+   | _ => []
+   end)%list.
+
 Definition verdicts (cs : list l2case) : list (string * string) :=
-  map (fun c => (lc_id c, verdict c)) cs.
+  map (fun c => (lc_id c, verdict c ++ "|" ++ join "," (families c))) cs.
